@@ -581,7 +581,7 @@ def select__distinct_values(self: XPathFunction, context: ta.ContextType = None)
     def distinct_values(case_insensitive: bool = False) -> Iterator[AtomicType]:
         nan = False
         results: list[AtomicType] = []
-        for value in self[0].atomization(context):
+        for value in values:
             if case_insensitive and isinstance(value, (str, bytes)):
                 value = value.casefold()
 
@@ -606,8 +606,12 @@ def select__distinct_values(self: XPathFunction, context: ta.ContextType = None)
     else:
         collation = self.get_argument(self.context or context, 1, required=True, cls=str)
 
+    # Evaluate the operand before entering and leave the collation context before
+    # yielding: the collation lock is process-wide and not reentrant.
+    values = [x for x in self[0].atomization(context)]
     with CollationManager(collation, self):
-        yield from distinct_values()
+        results = [x for x in distinct_values()]
+    yield from results
 
 
 @method(function('insert-before', nargs=3,
@@ -646,12 +650,14 @@ def select__index_of(self: XPathFunction, context: ta.ContextType = None) -> Ite
     else:
         collation = self.get_argument(context, 2, required=True, cls=str)
 
+    items = [x for x in self[0].atomization(context)]
     with CollationManager(collation, self) as manager:
-        for pos, result in enumerate(self[0].atomization(context), start=1):
-            if isinstance(result, bool) is not isinstance(value, bool):
-                continue  # xs:boolean is comparable only with xs:boolean
-            elif manager.eq(result, value):
-                yield pos
+        positions = [
+            pos for pos, result in enumerate(items, start=1)
+            if isinstance(result, bool) is isinstance(value, bool)  # xs:boolean vs xs:boolean only
+            and manager.eq(result, value)
+        ]
+    yield from positions
 
 
 @method(function('remove', nargs=2, sequence_types=('item()*', 'xs:integer', 'item()*')))
@@ -774,8 +780,8 @@ def evaluate__deep_equal(self: XPathFunction, context: ta.ContextType = None) ->
         collation = self.get_argument(context, 2, required=True, cls=str)
 
     return deep_equal(
-        seq1=self[0].select(context),
-        seq2=self[1].select(context),
+        seq1=[x for x in self[0].select(context)],
+        seq2=[x for x in self[1].select(context)],
         collation=collation,
     )
 
